@@ -4,7 +4,7 @@ import vcommon as V
 import c02gen as G
 
 PROPS = ["coq/C02/Properties_C02.v", "coq/C02/Properties_C02_rot.v", "coq/C02/Properties_C02_sym.v", "coq/C02/Properties_C02_fit.v",
-         "coq/C02/Properties_C02_load.v"]
+         "coq/C02/Properties_C02_load.v", "coq/C02/Properties_C02_path.v"]
 EXTRACT = "coq/C02/Extract_C02.v"
 DRIVER = "props/C02/driver.ml"
 UNIT = {"c02unit": ["props/C02/unit.cpp"]}
@@ -439,7 +439,7 @@ def start_parallel(run):
     finally:
         V.coq_check_properties = orig
     run.cov["checker_cmd"] = ("make -k -C coq C02/Properties_C02.vo C02/Properties_C02_rot.vo C02/Properties_C02_sym.vo C02/Properties_C02_fit.vo && "
-                              "coqc -Q . CV <each of the four files> (Coq 8.16.1 kernel; the files are compiled concurrently; native_compute not used)")
+                              "coqc -Q . CV <each of the property files> (Coq 8.16.1 kernel; the files are compiled concurrently; native_compute not used)")
     return st
 
 
